@@ -19,7 +19,7 @@
 (***************************************************************************)
 EXTENDS OVMReadersDefs, Json, IOUtils
 
-CONSTANTS Seed, ThreadCounts, SameCounts, LockCounts, RndCases, RndLen, Reps, RepsBig
+CONSTANTS Seed, ThreadCounts, CfgCounts, SameCounts, LockCounts, RndCases, RndLen, Reps, RepsBig
 
 Ms == ndJsonDeserialize(IOEnv.MESHES)
 AlphaOf == [i \in 1 .. Len(Ms) |-> Alphabet(Ms[i].proj, Ms[i].type)]
@@ -31,7 +31,8 @@ RECURSIVE Rnd(_, _, _)
 Rnd(x, n, K) == IF n = 0 THEN <<>> ELSE <<x % K>> \o Rnd((x * 75 + 74) % 65537, n - 1, K)
 Start(i, T, k, t) == ((Seed % 1000) * 7919 + i * 10007 + T * 1009 + k * 101 + t * 13) % 65521
 
-TC == SetToSeq(ThreadCounts)
+(* meshes with an incidence kind disabled run with the thread counts CfgCounts *)
+TCOf(i) == IF Ms[i].proj.st.vbu /\ Ms[i].proj.st.ebu /\ Ms[i].proj.st.fbu THEN ThreadCounts ELSE CfgCounts
 Cases ==
   UNION { UNION { {[mesh |-> Ms[i].name, case |-> i * 1000 + T * 10, kind |-> "rot", mode |-> "free", threads |-> T,
                     reps |-> IF T <= 4 THEN RepsBig ELSE Reps,
@@ -46,7 +47,7 @@ Cases ==
                           ELSE {})
                   \cup {[mesh |-> Ms[i].name, case |-> i * 1000 + T * 10 + k, kind |-> "rnd", mode |-> "free", threads |-> T, reps |-> RepsBig,
                          progs |-> [t \in 1 .. T |-> Rnd(Start(i, T, k, t), RndLen, Len(AlphaOf[i]))]] : k \in 1 .. RndCases}
-                  : T \in ThreadCounts }
+                  : T \in TCOf(i) }
           : i \in 1 .. Len(Ms) }
 
 Init == c \in Cases
